@@ -33,6 +33,9 @@ pub enum Case {
     },
     /// two requests in a row on one chip (register-file model): the second one is judged
     PowerSeq { chip: String, first: i32, second: i32, hz: u32 },
+    /// a sequence of front-end calls on one driver instance and one chip; after every call that names a frequency
+    /// the chip must be tuned to it. ops: see `FREQ_OPS`
+    FreqSeq { chip: String, ops: Vec<u8> },
     Timeout { chip: String, symbols: u16 },
     Adapter { chip: String, sf: usize, bw: usize, ms: u32 },
     Status126 { raw: [u8; 3] },
@@ -294,6 +297,88 @@ pub fn eval_power_seq(chip: &str, first: i32, second: i32, hz: u32) -> Vec<(Stri
         .collect()
 }
 
+/// Front-end operations of the frequency sequences (f1 = 868.1 MHz, f2 = 868.5 MHz).
+pub const FREQ_OPS: [&str; 13] = [
+    "prepare_for_tx(f1)", "prepare_for_tx(f2)", "prepare_for_rx(f1)", "prepare_for_rx(f2)", "start_rx", "rx_switch_channel(f1)", "rx_switch_channel(f2)",
+    "listen(f1)", "listen(f2)", "sleep(warm)", "sleep(cold)", "init", "tx",
+];
+
+/// Whatever the driver object remembers from earlier calls, after a call that names a frequency the chip's synthesiser
+/// word decodes to that frequency (same tolerance as for the single call).
+pub fn eval_freq_seq(chip: &str, ops: &[u8]) -> Vec<(String, String)> {
+    use crate::chips::{Sx126xChip, Sx127xChip};
+    use lora_phy::{LoRa, RxMode};
+    let is126 = chip == "sx1262";
+    let env = if is126 { Env::new(Box::new(Sx126xChip::new())) } else { Env::new(Box::new(Sx127xChip::new(false))) };
+    let e2 = env.clone();
+    let (f1, f2) = (868_100_000u32, 868_500_000u32);
+    let tuned = |e: &Env| -> u32 {
+        if is126 {
+            e.with_chip::<Sx126xChip, _>(|c| ((c.rf_freq_word as u64 * 32_000_000 + (1 << 24)) >> 25) as u32)
+        } else {
+            e.with_chip::<Sx127xChip, _>(|c| {
+                let w = ((c.regs[0x06] as u64) << 16) | ((c.regs[0x07] as u64) << 8) | c.regs[0x08] as u64;
+                ((w * 32_000_000 + (1 << 18)) >> 19) as u32
+            })
+        }
+    };
+    let ops_v = ops.to_vec();
+    let chip_s = chip.to_string();
+    let r = catch(move || -> Vec<(String, String)> {
+        let mut v = vec![];
+        macro_rules! go {
+            ($rk:expr) => {{
+                let Some(Ok(mut l)) = drive(LoRa::new($rk, true, e2.delay())) else { return v };
+                let payload = [0x40u8, 1, 2, 3, 4, 5, 6, 7, 8, 9, 10, 11];
+                for (i, &op) in ops_v.iter().enumerate() {
+                    let f = match op {
+                        0 | 2 | 5 | 7 => f1,
+                        _ => f2,
+                    };
+                    let Ok(mp) = l.create_modulation_params(lora_modulation::SpreadingFactor::_7, lora_modulation::Bandwidth::_125KHz, CodingRate::_4_5, f) else { return v };
+                    let Ok(mut txp) = l.create_tx_packet_params(8, false, true, false, &mp) else { return v };
+                    let Ok(rxp) = l.create_rx_packet_params(8, false, 64, true, true, &mp) else { return v };
+                    let res: Option<Result<(), lora_phy::mod_params::RadioError>> = match op {
+                        0 | 1 => drive(l.prepare_for_tx(&mp, &mut txp, 14, &payload)),
+                        2 | 3 => drive(l.prepare_for_rx(RxMode::Continuous, &mp, &rxp)),
+                        4 => drive(l.start_rx()),
+                        5 | 6 => drive(l.rx_switch_channel(f)),
+                        7 | 8 => drive(l.listen(f, lora_modulation::Bandwidth::_125KHz)),
+                        9 => drive(l.sleep(true)),
+                        10 => drive(l.sleep(false)),
+                        11 => drive(l.init()),
+                        _ => drive(l.tx()),
+                    };
+                    // a call the driver refuses (wrong mode) or that cannot complete ends the sequence: nothing to judge
+                    if !matches!(res, Some(Ok(()))) {
+                        return v;
+                    }
+                    if matches!(op, 0..=3 | 5..=8) {
+                        let got = tuned(&e2);
+                        if (got as i64 - f as i64).abs() > 61 {
+                            v.push((
+                                format!("C17|freq-seq|{chip_s}|chip-not-tuned-to-the-requested-frequency|{}", FREQ_OPS[op as usize].split('(').next().unwrap_or("")),
+                                format!("{chip_s}: after {:?} the chip is tuned to {got} Hz, step {i} ({}) asked for {f} Hz", ops_v.iter().map(|o| FREQ_OPS[*o as usize]).collect::<Vec<_>>(), FREQ_OPS[op as usize]),
+                            ));
+                            return v;
+                        }
+                    }
+                }
+                v
+            }};
+        }
+        if is126 {
+            go!(mk126(&e2, sx126x::Sx1262))
+        } else {
+            go!(mk127!(&e2, sx127x::Sx1276, false))
+        }
+    });
+    match r {
+        Ok(v) => v,
+        Err(p) => vec![(format!("C17|freq-seq|{chip}|panic|{}", panic_site(&p)), p)],
+    }
+}
+
 // ---------------------------------------------------------------- (c) symbol timeout
 
 pub fn eval_timeout(chip: &str, symbols: u16, env: &Env) -> Vec<(String, String)> {
@@ -480,6 +565,7 @@ pub fn eval(c: &Case) -> Vec<(String, String)> {
             eval_power_via(chip, *request, *hz, *via, &env)
         }
         Case::PowerSeq { chip, first, second, hz } => eval_power_seq(chip, *first, *second, *hz),
+        Case::FreqSeq { chip, ops } => eval_freq_seq(chip, ops),
         Case::Timeout { chip, symbols } => eval_timeout(chip, *symbols, &env),
         Case::Adapter { chip, sf, bw, ms } => eval_adapter(chip, *sf, *bw, *ms),
         Case::Status126 { raw } => {
@@ -590,6 +676,28 @@ pub fn run(tier: Tier, replay: Option<&str>) {
             }
         }
     }
+    // (a2) sequences of front-end calls on one driver instance: the chip follows every frequency that is named
+    {
+        let n = FREQ_OPS.len() as u32;
+        let depth = 4u32;
+        for chip in ["sx1262", "sx1276-rfo"] {
+            let total = n.pow(depth);
+            let found: Vec<(Vec<u8>, Vec<(String, String)>)> = (0..total)
+                .into_par_iter()
+                .filter_map(|k| {
+                    let ops: Vec<u8> = (0..depth).map(|i| ((k / n.pow(i)) % n) as u8).collect();
+                    // (sequences that name no frequency after their first step have nothing to compare)
+                    let v = eval_freq_seq(chip, &ops);
+                    if v.is_empty() { None } else { Some((ops, v)) }
+                })
+                .collect();
+            ctx.tick(total as u64);
+            nontrivial.fetch_add(total as u64, Ordering::Relaxed);
+            for (ops, v) in found {
+                rec(Case::FreqSeq { chip: chip.into(), ops }, v);
+            }
+        }
+    }
     // (c) symbol timeouts 0..=65535
     for chip in ["sx1262", "sx1276-rfo", "sx1272-rfo"] {
         (0..32u32).into_par_iter().for_each(|blk| {
@@ -689,7 +797,7 @@ pub fn run(tier: Tier, replay: Option<&str>) {
     let coverage = json!({
         "evaluations": ctx.evals(),
         "distinct_nontrivial": nontrivial.load(Ordering::Relaxed),
-        "rule": "(a) set_channel on SX126x and SX127x for every 100 Hz of the LoRaWAN bands plus a 1 kHz stride over 137-1020 MHz (thorough: every 1 Hz of 137-1020 MHz), PLL word decoded with the datasheet formula; (b) set_tx_power_and_ramp_time for every request -128..127 and i32 extremes x {SX1261, SX1262, STM32WL LP/HP, SX1276 RFO/BOOST, SX1272 RFO/BOOST} x 3 bands, PA registers decoded with the datasheet tables, and (SX126x) requests -20..30 also through LoRa::prepare_for_tx and LoRa::continuous_wave; pairs of requests in a row on one register-file chip model (14 first x 36 second values per chip), the second one decoded; (c) every symbol timeout 0..65535 through do_rx, decoded mantissa/exponent (SX126x) or 10-bit value (SX127x); (d) every (SF,BW) x margin 0..1000 ms through LorawanRadio::setup_rx + rx_single; (e) every raw SX126x (RssiPkt, SnrPkt[, SignalRssi]) value and every SX127x (SNR, RSSI, band, chip) register value through get_rx_packet_status, and the SX127x conversion over carrier frequencies on both sides of every band edge and of the 525 MHz LF/HF line. Every tuple is a distinct input",
+        "rule": "(a) set_channel on SX126x and SX127x for every 100 Hz of the LoRaWAN bands plus a 1 kHz stride over 137-1020 MHz (thorough: every 1 Hz of 137-1020 MHz), PLL word decoded with the datasheet formula; every sequence of four front-end calls over {prepare_for_tx / prepare_for_rx / rx_switch_channel / listen on two frequencies, start_rx, sleep warm / cold, init, tx} on one driver instance (SX1262, SX1276 chip models): after every call that names a frequency the chip is tuned to it; (b) set_tx_power_and_ramp_time for every request -128..127 and i32 extremes x {SX1261, SX1262, STM32WL LP/HP, SX1276 RFO/BOOST, SX1272 RFO/BOOST} x 3 bands, PA registers decoded with the datasheet tables, and (SX126x) requests -20..30 also through LoRa::prepare_for_tx and LoRa::continuous_wave; pairs of requests in a row on one register-file chip model (14 first x 36 second values per chip), the second one decoded; (c) every symbol timeout 0..65535 through do_rx, decoded mantissa/exponent (SX126x) or 10-bit value (SX127x); (d) every (SF,BW) x margin 0..1000 ms through LorawanRadio::setup_rx + rx_single; (e) every raw SX126x (RssiPkt, SnrPkt[, SignalRssi]) value and every SX127x (SNR, RSSI, band, chip) register value through get_rx_packet_status, and the SX127x conversion over carrier frequencies on both sides of every band edge and of the 525 MHz LF/HF line. Every tuple is a distinct input",
         "samples": [
             serde_json::to_value(Case::Freq { chip: "sx1262".into(), hz: 868_100_000 }).unwrap(),
             serde_json::to_value(Case::Power { chip: "sx1276-boost".into(), request: 20, hz: 868_100_000, via: 0 }).unwrap(),
